@@ -31,7 +31,7 @@ RULE = ('Hypothesis generates per-file packages (n_wav 2..4 quick / 2..7 thoroug
         'Entry "cube": cube packages fitted with wavelength "filters" requested at / near / exactly between tabulated '
         'wavelengths. Non-trivial (mono) = package with >= 3 wavelengths and >= 2 models (chunk sizes that do not divide the '
         'window and single-wavelength windows then occur); (cube) = a requested wavelength that is not tabulated.')
-RULE += (' ' + 'Relation: a tabulated wavelength lying exactly on a window end is emitted for all such windows or for none.')
+RULE += (' ' + 'Relation: a tabulated wavelength lying exactly on a window end is emitted for all such windows or for none (a window that is refused emits nothing).')
 RULE += (' ' + 'The window ends are handed over as quantities in micron, nm, mm, cm or Angstrom.')
 ASSUMPTIONS = [
     'a wavelength exactly on a window end may be present or absent (docstring says above/below, the property says inside)',
@@ -120,6 +120,22 @@ def run_mono(case, ctx):
                 if hi is not None:
                     kw['wav_max'], exact['upper'] = window_end(hi, wunit)
                 what = 'window [%s, %s] micron (given in %s), chunk size %d, wavelengths %r' % (lo, hi, WIN_UNITS[wunit][0], chunk, wav)
+
+                def note_ends(got):
+                    # a tabulated wavelength exactly ON a window end: emitted for every such window, or for none
+                    for kind, end in (('lower', lo), ('upper', hi)):
+                        if end is not None and end in wav and (lo != hi) and exact[kind]:
+                            seen = on_end[kind]
+                            seen.setdefault(end in got, (lo, hi))
+                            if len(seen) == 2:
+                                v = Violation('a tabulated wavelength lying exactly on the %s end of the window is emitted for the '
+                                              'window %r but not for the window %r (wavelengths %r, chunk size %d): whichever way '
+                                              '"inside" is read, one of the two is wrong' % (kind, seen[True], seen[False], wav, chunk),
+                                              'c16:window_end_inconsistent')
+                                red = dict(case)
+                                red['only'] = {'window': list(seen[True]), 'also': list(seen[False]), 'chunk': chunk}
+                                v.case_override = red
+                                raise v
                 try:
                     try:
                         with quiet():
@@ -130,6 +146,8 @@ def run_mono(case, ctx):
                             if written and not allowed:
                                 fail('%s: raised %s but wrote %r' % (what, type(exc).__name__, written), 'c16:files_for_empty_window')
                             labels.add('empty_window_raises')
+                            if not written:
+                                note_ends({})   # a refusal emits nothing: that also decides the ends lying on a node
                             continue
                         fail('%s: raised %s: %s' % (what, type(exc).__name__, exc), 'c16:raises:' + type(exc).__name__)
                     files = sorted(f for f in os.listdir(cdir)) if os.path.isdir(cdir) else []
@@ -145,19 +163,7 @@ def run_mono(case, ctx):
                         got[match[0]] = (fn, t)
                     missing = [w for w in inside if w not in got]
                     extra = [w for w in got if w not in allowed]
-                    for kind, end in (('lower', lo), ('upper', hi)):
-                        if end is not None and end in wav and (lo != hi) and exact[kind]:
-                            seen = on_end[kind]
-                            seen.setdefault(end in got, (lo, hi))
-                            if len(seen) == 2:
-                                v = Violation('a tabulated wavelength lying exactly on the %s end of the window is emitted for the '
-                                              'window %r but not for the window %r (wavelengths %r, chunk size %d): whichever way '
-                                              '"inside" is read, one of the two is wrong' % (kind, seen[True], seen[False], wav, chunk),
-                                              'c16:window_end_inconsistent')
-                                red = dict(case)
-                                red['only'] = {'window': list(seen[True]), 'also': list(seen[False]), 'chunk': chunk}
-                                v.case_override = red
-                                raise v
+                    note_ends(got)
                     if missing:
                         fail('%s: no file for wavelength(s) %r inside the window (files written for %r)' % (
                             what, missing, sorted(got)), 'c16:wavelength_missing')
